@@ -9,6 +9,7 @@ query.  The theorems below are the facts that make "merge what is stored" equal 
 "accumulate the raw points of the bucket", and that make buckets a partition.
 -/
 import ZenoModel.Lemmas.Regroup
+import ZenoModel.Lemmas.SubMergeLoop
 import ZenoModel.Model.QuerySpec
 
 namespace Zeno.C06
@@ -54,6 +55,18 @@ theorem subMerge_targets_bucket {scale otherRes resultUntil otherUntil untilOffs
     resultUntil - (((po : Int) + untilOffset) / scale) * (scale * otherRes) =
       outPeriod resultUntil (scale * otherRes) (otherUntil - (po : Int) * otherRes) :=
   subMerge_index po hs hr hoff
+
+/-- The loop of `Sequence.SubMerge` (no stride, non-negative offset): for every result period
+    `q` it leaves the state obtained by merging in, in source order, exactly the source periods
+    `po` with `⌊(po + off)/scale⌋ = q`, each once, and nothing else (`loopSpec`).  Together with
+    `subMerge_targets_bucket` this is "every stored period inside the window contributes to
+    exactly one output row". -/
+theorem subMerge_loop_exactly_once (e : Ex) (sm : SM) (otherRes : Int) (p : Pt) {scale off : Int} (hs : 0 < scale)
+    (strideSlice ssp : Int) (hstride : strideSlice ≤ 0) (n : Nat) (os : List (List Cell)) (po : Nat)
+    (result : List (List Cell)) (q : Nat) (hnn : 0 ≤ (po : Int) + off) (hlen : result.length = n) (hq : q < n) :
+    (subMergeLoop sm otherRes p scale off strideSlice ssp n po os result).getD q e.empty =
+      loopSpec sm otherRes p scale off q po os (result.getD q e.empty) :=
+  subMergeLoop_spec e sm otherRes p hs strideSlice ssp hstride n os po result q hnn hlen hq
 
 /-- The spec's bucket function is `outPeriod` (so the two theorems above are about the spec). -/
 theorem spec_bucket_is_outPeriod (hi P t : Int) : hi - ((hi - t) / P) * P = outPeriod hi P t := rfl
